@@ -140,6 +140,11 @@ def step (d : D) (line : String) : D × String :=
       if (v ≠ "4" ∧ v ≠ "6") || len > 255 || asn > 4294967295 || a ≥ 2 ^ (if v = "6" then 128 else 32) then bad
       else (d, validate st.t (v = "6") asn a len)
     | _, _, _ => bad
+  | ["checksize", h] =>
+    -- the model's rtr_pdu_check_size on the bytes of one PDU (tie of the C specification used by the CBMC obligation)
+    match hexToBytes? h with
+    | some b => (d, if checkSize b then "1" else "0")
+    | none => bad
   | ["show"] => (d, showSock st)
   | ["dump"] => (d, "\n".intercalate (dumpLines "D" st.t))
   | _ => bad
